@@ -23,7 +23,8 @@ for name in sorted(r):
     if len(summ) > 150:
         summ = summ[:147] + "..."
     lines.append(f"| {name} | {summ} | {'; '.join(cell) if cell else '**not caught**'} |")
-part = open(os.path.join(V, "tools", "design_part2.tmpl.md")).read().replace("@@TABLE@@", "\n".join(lines))
+nconf = len([n for n in r if os.path.exists(os.path.join(V, "seeded", n, "meta.json"))])
+part = open(os.path.join(V, "tools", "design_part2.tmpl.md")).read().replace("@@TABLE@@", "\n".join(lines)).replace("@@NCONF@@", str(nconf))
 dp = os.path.join(V, "DESIGN.md")
 d = open(dp).read()
 marker = "\n---------------------------------------------------------------------------\n\n# Part II — as built"
